@@ -49,6 +49,7 @@ fn engine_by_name(n: &str) -> Option<Box<dyn Engine>> {
         "net" => Some(Box::new(engines::net::Net)),
         "bcast" => Some(Box::new(engines::bcast::Bcast)),
         "inj" => Some(Box::new(engines::inj::Inj)),
+        "tset" => Some(Box::new(engines::tset::TSet)),
         "synccell" => Some(Box::new(engines::synccell::SyncCellEngine)),
         _ => None,
     }
